@@ -1,4 +1,5 @@
 ---------------------------------- MODULE APA_Cache ----------------------------------
+\* COVERS: {"mc": "MC_Cache", "actions": ["TR", "SetTraj", "UpdPred", "ReTraj", "SetPShape", "UpdInit", "AddLan", "RemLan", "MergeNet", "SetCycle", "SetOff", "SetDur", "QOcc", "QState", "QLight", "QPos", "QShape"], "devs": ["DEV_NoInvalidateOnPredictionTR", "DEV_NoReindexOnNetworkTR", "DEV_NoInvalidateCycle", "DEV_MergeRebuildOnlyIfAll", "DEV_SetterSkipsSameObject"]}
 (* C11, UNBOUNDED histories: typed (Apalache) transcription of MC_Cache + the operators of Cache (and of      *)
 (* TrafficLight that Cache uses) WITHOUT the step counter (`steps`, MaxSteps): any number of mutators and      *)
 (* queries in any order; coordinates are unbounded integers (translations accumulate), time steps too (t0       *)
@@ -11,7 +12,7 @@
 (*   - `act.arg` is a Seq(Int) for every operation.                                                             *)
 (* The universe is the one of MC_Cache (P0, Motions, Trajs, Cycles2, QPoints, QTimes): trajectories have at     *)
 (* most 3 poses, the history at most 2, cycles at most 2 elements, three lanelet ids with 4-point rings.         *)
-(* Obligations as in APA_ScenarioStore.tla; deviation constants by --cinit (CInitDev1..4).                      *)
+(* Obligations as in APA_ScenarioStore.tla; deviation constants by --cinit (CInitDev1..5).                      *)
 EXTENDS Integers, Sequences, FiniteSets, Apalache
 
 (*
@@ -37,15 +38,18 @@ CONSTANTS
     \* @type: Bool;
     DEV_NoInvalidateCycle,
     \* @type: Bool;
-    DEV_MergeRebuildOnlyIfAll
+    DEV_MergeRebuildOnlyIfAll,
+    \* @type: Bool;
+    DEV_SetterSkipsSameObject
 
-Dev(a, b, c, d) == /\ DEV_NoInvalidateOnPredictionTR = a /\ DEV_NoReindexOnNetworkTR = b
-                   /\ DEV_NoInvalidateCycle = c /\ DEV_MergeRebuildOnlyIfAll = d
-CInit     == Dev(FALSE, FALSE, FALSE, FALSE)
-CInitDev1 == Dev(TRUE, FALSE, FALSE, FALSE)
-CInitDev2 == Dev(FALSE, TRUE, FALSE, FALSE)
-CInitDev3 == Dev(FALSE, FALSE, TRUE, FALSE)
-CInitDev4 == Dev(FALSE, FALSE, FALSE, TRUE)
+Dev(a, b, c, d, e) == /\ DEV_NoInvalidateOnPredictionTR = a /\ DEV_NoReindexOnNetworkTR = b
+                      /\ DEV_NoInvalidateCycle = c /\ DEV_MergeRebuildOnlyIfAll = d /\ DEV_SetterSkipsSameObject = e
+CInit     == Dev(FALSE, FALSE, FALSE, FALSE, FALSE)
+CInitDev1 == Dev(TRUE, FALSE, FALSE, FALSE, FALSE)
+CInitDev2 == Dev(FALSE, TRUE, FALSE, FALSE, FALSE)
+CInitDev3 == Dev(FALSE, FALSE, TRUE, FALSE, FALSE)
+CInitDev4 == Dev(FALSE, FALSE, FALSE, TRUE, FALSE)
+CInitDev5 == Dev(FALSE, FALSE, FALSE, FALSE, TRUE)
 
 VARIABLES
     \* @type: $prim;
@@ -208,6 +212,11 @@ TR(lvl, m) ==
 \* @type: Seq($pose) => Bool;
 SetTraj(tr) == /\ P.ob.has = 1 /\ P' = [P EXCEPT !.ob.traj = tr] /\ occC' = NoOcc /\ UNCHANGED <<idx, cinit>>
                /\ Mut(A("set_trajectory", "", FlatPoses(tr)))
+\* the prediction's own Trajectory object is edited in place (Trajectory.translate_rotate) and handed back to the setter
+\* @type: $motion => Bool;
+ReTraj(m) == /\ P.ob.has = 1 /\ P' = [P EXCEPT !.ob.traj = MovePoses(m, P.ob.traj)]
+             /\ occC' = (IF DEV_SetterSkipsSameObject THEN occC ELSE NoOcc) /\ UNCHANGED <<idx, cinit>>
+             /\ Mut(A("reassign_trajectory", "", <<m.tx, m.ty, m.q>>))
 \* @type: $pt => Bool;
 SetPShape(sh) == /\ P.ob.has = 1 /\ P' = [P EXCEPT !.ob.pshp = sh] /\ occC' = NoOcc /\ UNCHANGED <<idx, cinit>>
                  /\ Mut(A("set_pshape", "", <<sh[1], sh[2]>>))
@@ -262,6 +271,7 @@ QLight(t) == LET c1 == IF cinit.ok = 0 THEN [ok |-> 1, cyc |-> P.lgt.cyc, off |-
 \* NO step counter
 Next == \/ \E lvl \in {"scenario", "obstacle", "prediction", "network"}, m \in Motions : TR(lvl, m)
         \/ \E tr \in Trajs : SetTraj(tr) \/ UpdPred(tr)
+        \/ \E m \in Motions : ReTraj(m)
         \/ UpdPred(<<>>) \/ SetPShape(<<1, 1>>)
         \/ \E maxh \in {1, 2} : UpdInit(<<3, 3, 1>>, maxh)
         \/ AddLan \/ \E i \in {1, 2} : RemLan(i)
@@ -292,7 +302,7 @@ TypeOK ==
     /\ Len(P.lgt.cyc) \in 1..2 /\ \A i \in DOMAIN P.lgt.cyc : P.lgt.cyc[i].d \in 1..3 /\ P.lgt.cyc[i].c \in Colors
     /\ P.lgt.off \in {0, 2}
     /\ occC.ok \in {0, 1} /\ cinit.ok \in {0, 1}
-    /\ act.op \in {"init", "tr", "set_trajectory", "set_pshape", "update_prediction", "update_initial_state", "add_lanelet",
+    /\ act.op \in {"init", "tr", "set_trajectory", "reassign_trajectory", "set_pshape", "update_prediction", "update_initial_state", "add_lanelet",
                    "merge_network", "remove_lanelet", "set_cycle_elements", "set_offset", "set_duration",
                    "occ", "state", "find_pos", "find_shape", "light"}
 \* @type: $prim => $occc;
